@@ -80,7 +80,7 @@ fn roundtrip_one(c: &Cfg) -> RtOut {
 			let m = b11::minimise(c, oracle);
 			viols.push(Viol {
 				oracle,
-				identity: format!("{}|{}", oracle, b11::cfg_desc(&m)),
+				identity: crate::rt_identity(oracle, "bolt11", &detail, &b11::cfg_desc(&m)),
 				detail: format!("[{}] {}", b11::cfg_desc(c), detail),
 				replay: json!({"fam": "b11-rt", "cfg": b11::cfg_json(&m)}),
 				rank: 0,
@@ -111,7 +111,15 @@ pub fn run(cx: &mut Ctx) {
 	// product B: variable-length tagged fields
 	fams.push((
 		"product-fields",
-		product(&[(5, all(5)), (6, all(6)), (7, all(7)), (8, all(8)), (9, all(9)), (1, vec![0, 1, 11]), (11, all(11))]),
+		product(&[
+			(5, all(5)),
+			(6, all(6)),
+			(7, all(7)),
+			(8, if thorough { all(8) } else { vec![0] }),
+			(9, all(9)),
+			(1, vec![0, 1, 11]),
+			(11, all(11)),
+		]),
 	));
 	if thorough {
 		fams.push((
@@ -185,18 +193,21 @@ pub fn run(cx: &mut Ctx) {
 	// ---- mutations --------------------------------------------------------------------------
 	// quick: deterministic subset; thorough: every built invoice of the non-wide families.
 	let n_small = fams[0].1.len(); // one-factor configs come first in `cfgs`
+	let len_of = |c: &Cfg| b11::build(c).map(|i| i.to_string().len()).unwrap_or(0);
 	let charsub_sel: Vec<(usize, Cfg)> = built
 		.iter()
-		.filter(|(i, _)| if thorough { fam_of[*i] <= 3 } else { *i < n_small || (fam_of[*i] == 1 && *i % 8 == 0) || (fam_of[*i] >= 2 && *i % 256 == 0) })
+		.filter(|(i, _)| if thorough { fam_of[*i] <= 3 } else { *i < n_small || (fam_of[*i] == 1 && *i % 16 == 0) || (fam_of[*i] >= 2 && *i % 1024 == 0) })
 		.cloned()
 		.collect();
+	// checksum-recomputed mutants cost one signature recovery each: quick takes the one-factor
+	// invoices of moderate length, thorough all one-factor and pair invoices plus a stride of the products
 	let fixed_sel: Vec<(usize, Cfg)> = built
 		.iter()
-		.filter(|(i, _)| {
+		.filter(|(i, c)| {
 			if thorough {
-				fam_of[*i] <= 1 || (fam_of[*i] <= 3 && *i % 16 == 0)
+				fam_of[*i] <= 1 || (fam_of[*i] <= 3 && *i % 64 == 0)
 			} else {
-				*i < n_small || (fam_of[*i] == 1 && *i % 64 == 0)
+				*i < n_small && len_of(c) <= 560
 			}
 		})
 		.cloned()
